@@ -46,7 +46,7 @@ impl Property for C02 {
         ]
     }
     fn required_probes(&self, _tier: &str) -> Vec<String> {
-        vec!["touch:stdout-error".into(), "touch:stderr-error".into(), "touch:read-error".into(), "touch:open-error".into(), "touch:cwd-error".into(), "touch:argv-bytes".into()]
+        vec!["touch:stdout-error".into(), "touch:stderr-error".into(), "touch:read-error".into(), "touch:open-error".into(), "touch:cwd-error".into(), "touch:argv-bytes".into(), "touch:real-epipe".into()]
     }
 
     fn gen_case(&self, ctx: &Ctx, worker: usize, rng: &mut Rng, _index: u64) -> Case {
@@ -56,6 +56,15 @@ impl Property for C02 {
         let mut plan = Plan::new();
         if rng.chance(3, 100) {
             world.file_name = 4;
+        }
+        if rng.chance(3, 100) {
+            // real kernel faults: a pipe whose reader has gone (EPIPE)
+            if rng.chance(1, 2) {
+                world.stdout = 6;
+            } else {
+                world.stderr = 6;
+            }
+            world.merged = false;
         }
         let w1 = faults::count_writes(&reference, 1);
         let w2 = faults::count_writes(&reference, 2);
@@ -119,6 +128,9 @@ impl Property for C02 {
         }
         if case.world.file_name == 4 {
             out.probes.push("touch:argv-bytes".into());
+        }
+        if r.events.iter().any(|e| e.kind == 'W' && e.ret < 0 && e.errno == 32 && e.act == "-") {
+            out.probes.push("touch:real-epipe".into());
         }
         if fd1_err && fd2_err {
             out.probes.push("both-sinks-failing".into());
